@@ -41,7 +41,7 @@ G(v) == [ok |-> TRUE, v |-> v]
 
 \* what the harness logs about a stream before touching it
 Snap(s) == [sid |-> s.sid, name |-> s.name, uo |-> s.uo, fresh |-> s.nread = 0, quiet |-> s.pending = 0,
-            opened |-> FALSE, awaited |-> FALSE, timeout |-> FALSE, ended |-> "", vopen |-> s.vopen, msgs |-> <<>>]
+            opened |-> FALSE, awaited |-> FALSE, timeout |-> FALSE, ended |-> IF s.dead THEN "EOF" ELSE "", vopen |-> s.vopen, msgs |-> <<>>]
 
 \* the harness waits for a change carrying want: it reads the queue up to and including the first such change
 FirstIdx(q, want) == IF \E k \in 1..Len(q) : q[k].v = want
@@ -78,7 +78,7 @@ Update(x, m, reject, r, echo, inter, interOld) ==
           resp == IF mut = "response-is-request" THEN x ELSE r
           seenChanged == resp # reg      \* what the client takes for "the update changed the value"
           emit(s) == LET nm == IF mut = "constant-name" THEN "a" ELSE s.name IN
-                     IF mut = "no-stream-events" THEN <<>>
+                     IF mut = "no-stream-events" \/ s.dead THEN <<>>
                      ELSE IF changed THEN (IF inter THEN <<[name |-> nm, v |-> IF interOld THEN reg ELSE Other(reg, r), ct |-> "after-open"]>> ELSE <<>>)
                                           \o <<[name |-> nm, v |-> r, ct |-> "after-open"]>>
                      ELSE IF echo THEN <<[name |-> nm, v |-> r, ct |-> "after-open"]>> ELSE <<>>
@@ -103,7 +103,7 @@ Get(m) ==
 Open(uo, name, initName) ==
   LET sid == steps + 1
       seed == IF (uo /\ mut # "ignores-updates-only") \/ mut = "no-initial-value" THEN <<>> ELSE <<[name |-> initName, v |-> reg, ct |-> "before-open"]>>
-      s0 == [sid |-> sid, name |-> name, uo |-> uo, nread |-> 0, pending |-> 0, vopen |-> reg, q |-> seed]
+      s0 == [sid |-> sid, name |-> name, uo |-> uo, nread |-> 0, pending |-> 0, vopen |-> reg, q |-> seed, dead |-> FALSE]
       \* the harness reads one message from a Pull that is not updates-only
       readOne == ~uo
       got == IF readOne /\ seed # <<>> THEN <<seed[1]>> ELSE <<>>
@@ -125,6 +125,13 @@ Close(i) ==
              resp |-> Zero, streams |-> [j \in 1..Len(streams) |-> IF j = i THEN [Snap(streams[j]) EXCEPT !.msgs = streams[j].q]
                                                                            ELSE Snap(streams[j])]]
 
+\* ---- another record of the same collection is deleted / created ------------------
+OtherRecord ==
+  /\ reg' = reg
+  /\ streams' = [j \in 1..Len(streams) |-> [streams[j] EXCEPT !.dead = @ \/ mut = "other-delete-ends-streams"]]
+  /\ obs' = [op |-> "Other", pre |-> G(reg), post |-> G(reg), code |-> "OK", mask |-> M(TRUE, <<>>), sub |-> Zero,
+             resp |-> Zero, streams |-> [j \in 1..Len(streams) |-> Snap(streams[j])]]
+
 Step ==
   \* the update mask and the written value do not influence the reference machine (business rules are
   \* opaque), so they are not varied except where a mutant uses the written value
@@ -137,6 +144,7 @@ Step ==
   \/ \E m \in Masks : Get(m)
   \/ \E uo \in BOOLEAN, name \in Names, initName \in Names : (uo => initName = name) /\ Open(uo, name, initName)
   \/ \E i \in 1..2 : Close(i)
+  \/ OtherRecord
 
 Next ==
   /\ steps < MaxSteps
